@@ -2,6 +2,7 @@ package main
 
 import (
 	"fmt"
+	"math/bits"
 	"strings"
 	"time"
 
@@ -296,8 +297,23 @@ func (w *world) checkConservation(final bool) {
 			return
 		}
 		if w.satur {
-			// Near the saturation limits only the upper bound and no-wrap
-			// (value-monotone, checked per snapshot) clauses apply.
+			// Near the saturation limits only the upper bound and no-wrap clauses
+			// apply (persisted values: value-monotone per snapshot). No wrap for
+			// the pending amount: once everything has returned, what is held
+			// (persisted + pending) is at least min(begun, 2^33-1) - a pending
+			// amount that wrapped instead of sticking falls below that.
+			if final {
+				const maxExtra = uint64(1)<<33 - 1
+				floor := w.begun[n]
+				if w.begunHi[n] > 0 || floor > maxExtra {
+					floor = maxExtra
+				}
+				held, carry := bits.Add64(pers[n], pend[n], 0)
+				if carry == 0 && held < floor {
+					w.fail("wrapped", "counter %q: %d (+%d*2^64) were added, yet persisted %d + pending %d is below %d: a value wrapped instead of sticking at its limit", short(n), w.begun[n], w.begunHi[n], pers[n], pend[n], floor)
+					return
+				}
+			}
 			continue
 		}
 		total := pers[n] + pend[n]
